@@ -240,6 +240,24 @@ pub fn check_input(alg: Algorithm, old8: &[u8], new8: &[u8], deep: bool) -> Resu
                 }
             }
         }
+        // history: right after a diff whose deadline expired at probe k (same thread), a diff
+        // with no deadline and one with a never-expiring deadline still give the plain result
+        if k == 0 || k + 1 == pinf || k == pinf / 2 {
+            for never in [false, true] {
+                let again = raw_deadline(alg, 1, &old, &new, None, never)
+                    .map_err(|e| format!("after an expiry at probe {}: {}", k, e))?;
+                runs += 1;
+                if again.calls != none.calls {
+                    return Err(format!(
+                        "right after a diff whose deadline expired at probe {}, a diff with {} gives [{}]; on its own it gives [{}]",
+                        k,
+                        if never { "a never-expiring deadline" } else { "no deadline" },
+                        calls_to_string(&again.calls),
+                        calls_to_string(&none.calls)
+                    ));
+                }
+            }
+        }
         if deep {
             // the same expiry point on a sub-range embedding read through a window Index: the
             // fallback paths must report absolute positions and stay inside the ranges too
